@@ -161,6 +161,8 @@ def is_known(known, v):
 # ------------------------------------------------------------------------------------------
 def load_suite(name):
     mod = importlib.import_module(f"suites.{name}")
+    # `from time import sleep` / `from subprocess import Popen` in a jade module must stay behind the suites' fakes
+    common.normalize_boundary()
     return mod.SUITE
 
 
